@@ -8,6 +8,9 @@
 package main
 
 import (
+	"sync/atomic"
+	"time"
+	"strings"
 	"bytes"
 	"crypto/sha256"
 	"encoding/binary"
@@ -98,6 +101,8 @@ func main() {
 	n := flag.Int("n", 60, "number of geometry inputs")
 	G := flag.Int("g", 8, "goroutines")
 	repo := flag.String("repo", "/repo", "")
+	stress := flag.Float64("stress", 0, "seconds of concurrent stress on the sweep-line jobs")
+	SG := flag.Int("sg", 48, "goroutines of the stress phase")
 	flag.Parse()
 	root := rng.New(*seed)
 
@@ -255,6 +260,42 @@ func main() {
 		Job, Phase, A, Other string
 	}
 	var mism []mm
+	// D: stress — the sweep-line jobs (boolean operations, Settle, Stroke, Offset: they share the pooled sweep objects) again and
+	// again from many goroutines at once for a fixed wall time; every result must equal the one of phase A
+	var geo []int
+	for i, j := range jobs {
+		for _, pre := range []string{"and-", "xor-", "or-", "not-", "settle-", "stroke-", "offset-"} {
+			if strings.HasPrefix(j.Name, pre) {
+				geo = append(geo, i)
+			}
+		}
+	}
+	stressRuns := int64(0)
+	if len(geo) > 0 && *stress > 0 {
+		deadline := time.Now().Add(time.Duration(*stress * float64(time.Second)))
+		var mu sync.Mutex
+		var wg2 sync.WaitGroup
+		for g := 0; g < *SG; g++ {
+			wg2.Add(1)
+			go func(g int) {
+				defer wg2.Done()
+				for k := g; time.Now().Before(deadline); k += 7 {
+					i := geo[k%len(geo)]
+					out := jobs[i].Run()
+					atomic.AddInt64(&stressRuns, 1)
+					if !bytes.Equal(A[i], out) {
+						a, b := diffCtx(A[i], out)
+						mu.Lock()
+						if len(mism) < 20 {
+							mism = append(mism, mm{jobs[i].Name, "concurrent-stress", a, b})
+						}
+						mu.Unlock()
+					}
+				}
+			}(g)
+		}
+		wg2.Wait()
+	}
 	kinds := map[string]int{}
 	nontrivial := 0
 	panics := 0
@@ -280,7 +321,7 @@ func main() {
 	for i := 0; i < len(jobs) && i < 3; i++ {
 		samples = append(samples, jobs[i].Name+": "+hash(A[i])+" "+trunc(A[i]))
 	}
-	json.NewEncoder(os.Stdout).Encode(map[string]interface{}{"jobs": len(jobs), "goroutines": *G, "kinds": kinds, "nontrivial": nontrivial, "panics_same_in_all_phases": panics, "mismatches": mism, "samples": samples})
+	json.NewEncoder(os.Stdout).Encode(map[string]interface{}{"jobs": len(jobs), "goroutines": *G, "kinds": kinds, "nontrivial": nontrivial, "panics_same_in_all_phases": panics, "mismatches": mism, "samples": samples, "stress_runs": stressRuns, "stress_goroutines": *SG})
 }
 
 func trunc(b []byte) string {
